@@ -3,9 +3,12 @@
 cd /verif
 for c in "$@"; do
   while [ -e /tmp/seed/REPO_BUSY ]; do sleep 10; done
+  touch /tmp/seed/THOROUGH_RUNNING
   t0=$(date +%s)
   timeout 10800 ./check $c --tier thorough > build/thorough_$c.txt 2>&1; code=$?
   t1=$(date +%s)
+  rm -f /tmp/seed/THOROUGH_RUNNING
+  sleep 3
   echo "$c exit=$code wall=$((t1-t0))s $(tail -1 build/thorough_$c.txt | cut -c1-220)" >> build/thorough.log
 done
 echo "batch done: $*" >> build/thorough.log
